@@ -17,7 +17,7 @@ RULE = ("genesis: (a) n random all-module histories (12-52 blocks of the C09 gen
         "key by key, for the 13 carried record collections (admin accounts, pools, providers, buckets, pending/completed/failed distribution records, distributions, "
         "claims, blacklist, positions, prophecies, registry) — not only export vs re-export; histories set parameters to a MEANINGFUL zero through the live messages (margin fund percentages / thresholds via MsgUpdateParams, "
         "MsgAdminCloseAll without fund cut, clp swap fee 0, liquidity protection off, rewards periods 0, LPPD rate 0, bridge pause) and the generated documents contain "
-        "zero Dec/Uint/Int values in a quarter / sixth of the fields; one directed history big-collections crosses the list-size thresholds of every exported collection (210 pools, 465 providers, 120 margin positions, 210 prophecies, 250 distribution records, 211 registry entries; page limits in the code are 100 / 200, dispensation pays 20 records per run); histories contain a MsgSetRegistry that lists a denom twice with differing copies followed by a MsgRegister on that denom (generated documents carry duplicated registry entries too); histories contain same-block create/run/create distributions (one "
+        "zero Dec/Uint/Int values in a quarter / sixth of the fields; one directed history big-collections crosses the list-size thresholds of every exported collection (210 pools, 465 providers, 120 margin positions, 210 prophecies, 250 distribution records, 211 registry entries; page limits in the code are 100 / 200, dispensation pays 20 records per run); histories set and replace the ethbridge blacklist with real addresses in several capitalisations and with elements that are not addresses (empty, ENS name, bech32, wrong-length hex), generated documents likewise; histories contain a MsgSetRegistry that lists a denom twice with differing copies followed by a MsgRegister on that denom (generated documents carry duplicated registry entries too); histories contain same-block create/run/create distributions (one "
         "distributor, two runners, overlapping recipient: a COMPLETED and a PENDING record with the same name, type and recipient).  (b) 3n reflection-generated "
         "well-formed genesis documents (every field of every GenesisState populated, unique keys, ValidateGenesis ok): "
         "import -> export equals the document as a set of items, import again -> export identical.  non-trivial = section "
